@@ -42,7 +42,9 @@ pub struct Cfg {
     pub strat: u8,
     pub zlib: bool,
     pub wbits: u8,
-    /// 0 = with_params, 1 = new(create_comp_flags_from_zip_params(..)) (the C API path)
+    /// 0 = with_params, 1 = new(create_comp_flags_from_zip_params(..)) (the C API path),
+    /// 2 = new(flags assembled by hand: the same word without TDEFL_COMPUTE_ADLER32, the classic
+    /// miniz idiom `TDEFL_WRITE_ZLIB_HEADER | probes`)
     pub ctor: u8,
 }
 
@@ -52,17 +54,14 @@ impl Cfg {
         if self.ctor == 0 {
             CompressorOxide::with_params(fmt, self.level, STRATS[self.strat as usize], self.wbits)
         } else {
-            CompressorOxide::new(create_comp_flags_from_zip_params(
-                self.level as i32,
-                if self.zlib { 15 } else { -15 },
-                STRATS[self.strat as usize] as i32,
-            ))
+            let f = create_comp_flags_from_zip_params(self.level as i32, if self.zlib { 15 } else { -15 }, STRATS[self.strat as usize] as i32);
+            CompressorOxide::new(if self.ctor == 2 { f & !miniz_oxide::deflate::core::deflate_flags::TDEFL_COMPUTE_ADLER32 } else { f })
         }
     }
     pub fn name(&self) -> String {
         format!(
             "{}(level={},strategy={},{},wbits={})",
-            if self.ctor == 0 { "with_params" } else { "new(flags)" },
+            if self.ctor == 0 { "with_params" } else if self.ctor == 1 { "new(flags)" } else { "new(hand-assembled flags)" },
             self.level,
             strat_name(STRATS[self.strat as usize]),
             if self.zlib { "zlib" } else { "raw" },
@@ -107,6 +106,12 @@ pub fn canonical_cfgs_ext(wbits: &[u8], with_ctor1: bool, merge_clamped: bool) -
                         total += 1;
                         let comp = c1.make();
                         seen.entry((comp.flags(), 15, zlib)).or_insert(c1);
+                        if zlib {
+                            let c2 = Cfg { ctor: 2, ..c };
+                            total += 1;
+                            let comp = c2.make();
+                            seen.entry((comp.flags(), 15, zlib)).or_insert(c2);
+                        }
                     }
                 }
             }
